@@ -79,39 +79,95 @@ example : Demo.b ∈ queuedOf [.accept 0 Demo.b, .accept 0 Demo.a] ∧
 
 /-! ## capacity -/
 
-/-- `current_size` is the sum of the sizes of the queued items (the `-=` of lines 211/237 never
+/-- `current_size` is the sum of the sizes of the queued items (the `-=` of lines 216/242 never
 underflows). -/
 theorem size_accounting {cap n : Nat} {evs : List Event} {s : State}
     (h : run cap (init n) evs = some s) : s.cur = sizeSum s.items :=
   (InvA_run h).cur_eq
 
-/-- The bytes queued never exceed the capacity — unconditionally: an item that does not fit on
-its own is never admitted at all (`push` waits for ever, `try_push` says `WouldBlock`; see
-`oversize_blocks`). -/
+/-- The admission rule (lines 107–110, 119, 154): an accept event happens only on an open queue, and
+only if the item fits on top of what is queued **or the queue is empty**. -/
+theorem accept_rule {cap n : Nat} {evs : List Event} {s : State}
+    (h : run cap (init n) evs = some s) {h2 h1 : List HEv} {t : Nat} {x : Item}
+    (hh : s.hist = h2 ++ HEv.accept t x :: h1) :
+    (¬ ∃ u, HEv.close u ∈ h1) ∧ (sizeSum (queuedOf h1) + x.size ≤ cap ∨ queuedOf h1 = []) := by
+  have hk := HistOK_suffix h2 _ (hh ▸ (InvA_run h).hist)
+  simp only [HistOK] at hk
+  refine ⟨fun hc => ?_, hk.2.1⟩
+  have := closedIn_iff.mpr hc
+  rw [hk.1] at this
+  exact absurd this (by simp)
+
+/-- The bytes queued never exceed the capacity whenever each item individually fits (every item
+offered by `push` / `try_push` has `size ≤ cap`). -/
 theorem cap_bound {cap n : Nat} {evs : List Event} {s : State}
-    (h : run cap (init n) evs = some s) : sizeSum s.items ≤ cap :=
-  size_accounting h ▸ (InvA_run h).cur_le
+    (h : run cap (init n) evs = some s)
+    (hf : ∀ e ∈ evs, OffersOnly (fun it => it.size ≤ cap) e) : sizeSum s.items ≤ cap := by
+  have ia := InvA_run h
+  rcases ia.bound with hb | ⟨x, hx⟩
+  · exact ia.cur_eq ▸ hb
+  · have hacc : x ∈ accepted s.hist :=
+      ((accepted_perm s.hist ia.hist).trans (ia.perm.append_right _)).mem_iff.mpr
+        (List.mem_append_left _ (by rw [hx]; exact List.mem_singleton.mpr rfl))
+    have := (InvR_run hf h).acc x hacc
+    simp only [hx, sizeSum]
+    omega
 
 example : Demo.mid.cur = sizeSum Demo.mid.items ∧ sizeSum Demo.mid.items ≤ 10 :=
-  ⟨size_accounting Demo.run_mid, cap_bound Demo.run_mid⟩
+  ⟨size_accounting Demo.run_mid, cap_bound Demo.run_mid (by decide)⟩
 example : sizeSum Demo.mid.items = 10 := by decide
 
-/-- The model computes `current_size + size_bytes` in ℕ, the code in `usize`. Under the property's
-own hypothesis (every item offered by `push`/`try_push` fits on its own) and `2 * cap < 2^64` no
-sum the code evaluates (lines 105, 125, 149, 160) reaches 2^64, so the two coincide: for every
-item a thread carries inside `push` and for every fitting item a `try_push` could offer next. -/
-theorem no_usize_overflow {cap n : Nat} {evs : List Event} {s : State}
-    (h : run cap (init n) evs = some s) (hf : ∀ e ∈ evs, OffersOnly (fun it => it.size ≤ cap) e)
-    (hc : 2 * cap < 2 ^ 64) :
+/-- The exact bound without any hypothesis on the sizes: in every reachable state the bytes queued
+are within the capacity, **or exactly one item is queued and that item alone exceeds the
+capacity** (it was admitted into the empty queue; nothing is admitted on top of it). -/
+theorem cap_bound_general {cap n : Nat} {evs : List Event} {s : State}
+    (h : run cap (init n) evs = some s) :
+    sizeSum s.items ≤ cap ∨ ∃ x, s.items = [x] ∧ cap < x.size := by
+  have ia := InvA_run h
+  rcases ia.bound with hb | ⟨x, hx⟩
+  · exact .inl (ia.cur_eq ▸ hb)
+  · by_cases hc : x.size ≤ cap
+    · left; simp only [hx, sizeSum]; omega
+    · exact .inr ⟨x, hx, by omega⟩
+
+/-- Same bound as a number: if every offered item has at most `M` bytes, the bytes queued never
+exceed `max cap M` (the capacity or the largest single item). -/
+theorem cap_bound_max {cap n M : Nat} {evs : List Event} {s : State}
+    (h : run cap (init n) evs = some s)
+    (hM : ∀ e ∈ evs, OffersOnly (fun it => it.size ≤ M) e) : sizeSum s.items ≤ max cap M := by
+  rcases cap_bound_general h with hb | ⟨x, hx, _⟩
+  · exact Nat.le_trans hb (Nat.le_max_left _ _)
+  · have ia := InvA_run h
+    have hacc : x ∈ accepted s.hist :=
+      ((accepted_perm s.hist ia.hist).trans (ia.perm.append_right _)).mem_iff.mpr
+        (List.mem_append_left _ (by rw [hx]; exact List.mem_singleton.mpr rfl))
+    have := (InvR_run hM h).acc x hacc
+    simp only [hx, sizeSum]
+    have := Nat.le_max_right cap M
+    omega
+
+/-- the second alternative of `cap_bound_general` does occur: capacity 4, one queued item of 6 bytes -/
+example : ∃ x, Demo.over3.items = [x] ∧ 4 < x.size :=
+  (cap_bound_general Demo.run_over3).resolve_left (by decide)
+example : sizeSum Demo.over3.items ≤ max 4 6 := cap_bound_max Demo.run_over3 (by decide)
+
+/-- The model computes `current_size + size_bytes` in ℕ, the code in `usize`. If every item offered
+by `push`/`try_push` has at most `M` bytes and `max cap M + M < 2^64`, no sum the code evaluates
+(lines 107, 130, 154, 165) reaches 2^64, so the two coincide: for every item a thread carries
+inside `push` and for every item of at most `M` bytes a `try_push` could offer next. With
+`M = cap` (every item fits) the condition is `2 * cap < 2^64`. -/
+theorem no_usize_overflow {cap n M : Nat} {evs : List Event} {s : State}
+    (h : run cap (init n) evs = some s) (hM : ∀ e ∈ evs, OffersOnly (fun it => it.size ≤ M) e)
+    (hc : max cap M + M < 2 ^ 64) :
     (∀ st ∈ s.thr, ∀ it, st.item? = some it → s.cur + it.size < 2 ^ 64) ∧
-    (∀ it : Item, it.size ≤ cap → s.cur + it.size < 2 ^ 64) := by
-  have hcur := (InvA_run h).cur_le
+    (∀ it : Item, it.size ≤ M → s.cur + it.size < 2 ^ 64) := by
+  have hcur : s.cur ≤ max cap M := size_accounting h ▸ cap_bound_max h hM
   refine ⟨fun st hst it hit => ?_, fun it hit => by omega⟩
-  have := (InvR_run hf h).carried st hst it hit
+  have := (InvR_run hM h).carried st hst it hit
   omega
 
 example : ∀ st ∈ Demo.mid.thr, ∀ it, st.item? = some it → Demo.mid.cur + it.size < 2 ^ 64 :=
-  (no_usize_overflow Demo.run_mid (by decide) (by decide)).1
+  (no_usize_overflow (M := 10) Demo.run_mid (by decide) (by decide)).1
 
 /-! ## close -/
 
@@ -214,41 +270,44 @@ example : Demo.asleep.items = [] :=
   consumer_asleep_queue_empty Demo.run_asleep (by decide) (by decide)
 
 /-- `not_full`, one producer (the pipeline's case): if only thread `p` ever calls the blocking
-`push`, then whenever it sleeps un-notified its item really does not fit (and the queue is open).
-`try_push` by other threads is allowed. -/
+`push`, then whenever it sleeps un-notified its item really does not fit, the queue is non-empty
+(so a future take will notify it) and open. `try_push` by other threads is allowed. No hypothesis
+on the sizes. -/
 theorem no_lost_wakeup_not_full_single {cap n p : Nat} {evs : List Event} {s : State}
     (h : run cap (init n) evs = some s) (hp : ∀ e ∈ evs, OnlyPusher p e)
     {t : Nat} {it : Item} (ht : s.thr[t]? = some (.waitNF it)) :
-    t = p ∧ s.cur + it.size > cap ∧ s.closed = false := by
+    t = p ∧ s.cur + it.size > cap ∧ s.items ≠ [] ∧ s.closed = false := by
   have hd := InvD_run hp h
   exact ⟨hd.only t _ ht (by simp [item?]), hd.wait t it ht⟩
 
-example : (0 : Nat) = 0 ∧ Demo.mid.cur + Demo.c.size > 10 ∧ Demo.mid.closed = false :=
+example : (0 : Nat) = 0 ∧ Demo.mid.cur + Demo.c.size > 10 ∧ Demo.mid.items ≠ [] ∧
+    Demo.mid.closed = false :=
   no_lost_wakeup_not_full_single (p := 0) Demo.run_mid (by decide) (t := 0) rfl
 
-/-- `not_full`, any number of producers, every pushed item fits on its own: while some producer
-sleeps un-notified, the queue is non-empty or a producer is on its way (notified, or running
-inside `push`). So a future take — which notifies — is always possible, or someone is coming. -/
+/-- `not_full`, any number of producers, any sizes: while some producer sleeps un-notified, the
+queue is non-empty or a producer is on its way (notified, or running inside `push`). So a future
+take — which notifies — is always possible, or someone is coming. (Before the repair of D5 this
+needed "every pushed item fits on its own".) -/
 theorem not_full_covered {cap n : Nat} {evs : List Event} {s : State}
-    (h : run cap (init n) evs = some s) (hf : ∀ e ∈ evs, FitsEv cap e)
+    (h : run cap (init n) evs = some s)
     (hw : 0 < s.cnt isWaitNF) : s.items ≠ [] ∨ 0 < s.cnt isNotifNF + s.cnt isPushing := by
-  have := (InvC_run hf h).nf hw
+  have := (InvC_run h).nf hw
   by_cases he : s.items = []
   · right; simp only [he, List.length_nil] at this; simp only [State.cnt]; omega
   · exact .inl he
 
 example : Demo.mid.items ≠ [] ∨ 0 < Demo.mid.cnt isNotifNF + Demo.mid.cnt isPushing :=
-  not_full_covered Demo.run_mid (by decide) (by decide)
+  not_full_covered Demo.run_mid (by decide)
 
-/-- Consequently (every item fits): the queue itself never deadlocks — a state in which a producer
-and a consumer both sleep un-notified while nobody is running or on its way is unreachable. -/
+/-- Consequently, for all sizes: the queue itself never deadlocks — a state in which a producer and
+a consumer both sleep un-notified while nobody is running or on its way is unreachable. -/
 theorem no_mutual_wait {cap n : Nat} {evs : List Event} {s : State}
-    (h : run cap (init n) evs = some s) (hf : ∀ e ∈ evs, FitsEv cap e) :
+    (h : run cap (init n) evs = some s) :
     ¬ (0 < s.cnt isWaitNF ∧ 0 < s.cnt isWaitNE ∧
         s.cnt isNotifNF + s.cnt isPushing + s.cnt isNotifNE + s.cnt isPulling = 0) := by
   rintro ⟨h1, h2, h0⟩
   have he := consumer_asleep_queue_empty h h2 (by omega)
-  rcases not_full_covered h hf h1 with hne | hpos
+  rcases not_full_covered h h1 with hne | hpos
   · exact hne he
   · omega
 
@@ -258,8 +317,9 @@ X and the single `notify_one` goes to producer 1, which still does not fit and s
 the state reached producer 2 **fits** (5+5 ≤ 10), sleeps un-notified, nobody is on the way, and
 the only enabled events are new calls of thread 0 or spurious wake-ups: producer 2 stays blocked
 until some thread takes again (a delay if consumers keep pulling — `not_full_covered` —, a
-deadlock if thread 0 waits for B). Every item fits on its own, so `not_full_covered` and
-`no_mutual_wait` apply to this run; `no_lost_wakeup_not_full_single` does not (two pushers). -/
+deadlock if thread 0 waits for B). `not_full_covered` and `no_mutual_wait` apply to this run;
+`no_lost_wakeup_not_full_single` does not (two pushers). Unchanged by the repair of D5 (every
+item fits, and the queue is never empty while a producer sleeps). -/
 theorem two_producers_delayed_wakeup :
     ∃ evs s, run 10 (init 3) evs = some s ∧ (∀ e ∈ evs, FitsEv 10 e) ∧
       (∃ it, s.thr[2]? = some (.waitNF it) ∧ s.cur + it.size ≤ 10) ∧ s.closed = false ∧
@@ -268,14 +328,64 @@ theorem two_producers_delayed_wakeup :
   ⟨Demo.evs2, Demo.stuck2, Demo.run_evs2, by decide, ⟨Demo.B, rfl, by decide⟩, rfl, by decide,
     Demo.stuck2_enabled⟩
 
-/-- Why "every item fits on its own" is needed for `not_full_covered` / `no_mutual_wait`: with an
-item larger than the capacity (6 > 4) the state "producer asleep on `not_full`, consumer asleep on
-`not_empty`, queue empty" is reachable, and nothing but spurious wake-ups is enabled in it (after
-which both go back to sleep). This is the code as it stands (DESIGN §7 D5, property C05). -/
-theorem oversize_blocks :
-    ∃ evs s, run 4 (init 2) evs = some s ∧ s.items = [] ∧ s.closed = false ∧
-      0 < s.cnt isWaitNF ∧ 0 < s.cnt isWaitNE ∧
-      (∀ e s', step 4 s e = some s' → e = .pushSpur 0 ∨ e = .pullSpur 1) :=
-  ⟨Demo.evs3, Demo.stuck3, Demo.run_evs3, rfl, rfl, by decide, by decide, Demo.stuck3_enabled⟩
+/-! ## items larger than the capacity (repair of D5, commit c0ac607) -/
+
+/-- What a thread inside `push` does next, in every state (lines 107–110 and 119): it waits iff
+too full ∧ non-empty ∧ open, it is refused iff closed, and it is admitted (for a suitable choice
+of the notified waiter) iff open ∧ (fits ∨ the queue is empty). Exactly one of the three. -/
+theorem push_decision (cap : Nat) (s : State) (t : Nat) (it : Item)
+    (ht : s.thr[t]? = some (.pushing it)) :
+    ((step cap s (.pushWait t)).isSome ↔
+      (s.cur + it.size > cap ∧ s.items ≠ [] ∧ s.closed = false)) ∧
+    ((step cap s (.pushRefuse t)).isSome ↔ s.closed = true) ∧
+    ((∃ w, (step cap s (.pushAdmit t w)).isSome) ↔
+      ((s.cur + it.size ≤ cap ∨ s.items = []) ∧ s.closed = false)) := by
+  refine ⟨?_, ?_, ?_⟩
+  · simp only [step, ht]
+    split <;> simp_all
+  · simp only [step, ht]
+    split <;> simp_all
+  · simp only [step, ht]
+    constructor
+    · rintro ⟨w, hw⟩
+      split at hw
+      · assumption
+      · simp at hw
+    · intro hc
+      obtain ⟨w, s', hs'⟩ := notifyNE_enabled ((s.setT t .idle).enq t it)
+      exact ⟨w, by rw [if_pos hc, hs']; rfl⟩
+
+/-- An item larger than the capacity does not block `push` for ever any more: once the queue is
+empty (and open) the push cannot wait, and it is admitted. Together with `not_full_covered` /
+`no_lost_wakeup_not_full_single` (a sleeping producer always has a non-empty queue in front of it,
+and the take that empties the queue notifies) an oversize push completes as soon as the consumers
+have drained the queue.
+
+Formerly (before commit c0ac607) the model had the proved witness `oversize_blocks`: capacity 4,
+item of 6 bytes, `[pullEnter 1, pullWait 1, pushEnter 0 Big, pushWait 0]` reached
+`{items := [], thr := [waitNF Big, waitNE]}` in which only spurious wake-ups were enabled — the
+defect D5 (`push` blocked for ever and the consumers with it). That run is no longer accepted by
+the model nor produced by the code: `pushWait` needs a non-empty queue. -/
+theorem oversize_admitted_when_empty (cap : Nat) (s : State) (t : Nat) (it : Item)
+    (ht : s.thr[t]? = some (.pushing it)) (he : s.items = []) (hc : s.closed = false) :
+    step cap s (.pushWait t) = none ∧
+      ∃ w s', step cap s (.pushAdmit t w) = some s' ∧ s'.items = [it] := by
+  constructor
+  · simp [step, ht, he]
+  · obtain ⟨w, s', hs'⟩ := notifyNE_enabled ((s.setT t .idle).enq t it)
+    refine ⟨w, s', by simp only [step, ht, he, hc, or_true, and_self, ↓reduceIte, hs'], ?_⟩
+    cases notifyNE_sound hs' <;> simp [State.setT, State.enq, he]
+
+/-- capacity 4, empty queue, consumer asleep: the 6-byte item is admitted and taken (the run that
+used to end in the stuck state) … -/
+example : run 4 (init 2) Demo.evs3 = some Demo.final3 ∧ returned Demo.final3.hist = [Demo.Big] :=
+  ⟨Demo.run_evs3, by decide⟩
+/-- … and on a non-empty queue it sleeps, is notified by the take that empties the queue, and is
+admitted. -/
+example : run 4 (init 2) Demo.evs4 = some Demo.final4 ∧ Demo.final4.items = [Demo.Big] :=
+  ⟨Demo.run_evs4, rfl⟩
+example : ∃ w s', step 4 (State.mk [] 0 false [.pushing Demo.Big, .waitNE] []) (.pushAdmit 0 w) = some s' ∧
+    s'.items = [Demo.Big] :=
+  (oversize_admitted_when_empty 4 _ 0 Demo.Big rfl rfl rfl).2
 
 end Ragc.Props.C06
